@@ -122,6 +122,80 @@ Proof.
     eexists; reflexivity.
 Qed.
 
+(* (d) an opening brace: one tab less than the scope when the statement before it (blank / comment / preprocessor lines apart)
+   is the control statement, function header or type declaration it belongs to - the scope is entered before the `{` *)
+Fixpoint brace_parent (rest : list str) : bool :=
+  match rest with
+  | [] => false
+  | x :: r => if str_eqb x (s "IsEmptyLine") || str_eqb x (s "IsComment") || str_eqb x (s "IsPreprocessorStatement") then brace_parent r
+              else str_in x [s "IsControlStatement"; s "IsFuncDeclaration"; s "IsUserDefinedType"]
+  end.
+
+Lemma brace_hist_walk (g : Z) (E : list em) (v : view) : forall rest e,
+  for_each rest (fun x_item (st : Z * Z * list em * view) => let '(x_expected, x_got, E, v) := st in
+     if str_eqb x_item (s "IsEmptyLine") || str_eqb x_item (s "IsComment") || str_eqb x_item (s "IsPreprocessorStatement")
+     then Ok (false, (x_expected, x_got, E, v))
+     else if negb (str_in x_item [s "IsControlStatement"; s "IsFuncDeclaration"; s "IsUserDefinedType"])
+          then Ok (true, (x_expected, x_got, E, v))
+          else let x_expected := x_expected - 1 in Ok (true, (x_expected, x_got, E, v))) (e, g, E, v)
+  = Ok (if brace_parent rest then e - 1 else e, g, E, v).
+Proof.
+  induction rest as [|x r IH]; intros e; cbn [for_each brace_parent]; [reflexivity|].
+  destruct (str_eqb x (s "IsEmptyLine") || str_eqb x (s "IsComment") || str_eqb x (s "IsPreprocessorStatement")); [apply IH|].
+  destruct (str_in x [s "IsControlStatement"; s "IsFuncDeclaration"; s "IsUserDefinedType"]); reflexivity.
+Qed.
+
+Lemma hist_without_newest v h1 rest : v_history v = h1 :: rest ->
+  rev (py_slice_to (py_history v) (hist_len v - 1)) = rest.
+Proof.
+  intros Hh. unfold py_history, hist_len, py_slice_to, zlen. rewrite Hh. cbn [rev List.length].
+  replace (Z.of_nat (S (Datatypes.length rest)) - 1 <? 0) with false by (symmetry; apply Z.ltb_ge; lia).
+  replace (Z.to_nat (Z.of_nat (S (Datatypes.length rest)) - 1)) with (Datatypes.length (rev rest)) by (rewrite rev_length; lia).
+  rewrite firstn_app, Nat.sub_diag, firstn_all. cbn [firstn]. rewrite app_nil_r. apply rev_involutive.
+Qed.
+
+Theorem line_indent_lbrace_silent toks scope v k h1 rest t0 tb :
+  v_history v = h1 :: rest -> str_in h1 indent_skipped = false -> leading toks [ty_tab] k ->
+  peek toks (Z.of_nat k) = Some tb -> t_type tb = s "LBRACE" -> peek toks 0 = Some t0 ->
+  v_scope_indent v = Z.of_nat k + (if brace_parent rest then 1 else 0) ->
+  exists v', check_line_indent toks scope v = Ok ([], v').
+Proof.
+  intros Hh Hs Hl Hb Hty H0 Hi. unfold check_line_indent. cbv zeta. unfold hist_back. rewrite Hh. cbn [Nat.sub nth_error need_hist].
+  fold indent_skipped. rewrite Hs. fold ty_tab.
+  assert (Hbr : truthy (checkl toks (Z.of_nat k) [s "LBRACE"; s "RBRACE"]) = true) by (rewrite (checkl_some _ _ _ _ Hb), Hty; reflexivity).
+  assert (Hr : is_true (check1 toks (Z.of_nat k) (s "RBRACE")) = false) by (rewrite (check1_some _ _ _ _ Hb), Hty; reflexivity).
+  assert (Fin : forall v0 : view, v_history v0 = h1 :: rest -> v_scope_indent v0 = v_scope_indent v ->
+    exists v', (if truthy (checkl toks (Z.of_nat k) [s "LBRACE"; s "RBRACE"]) && (v_scope_indent v0 >? 0)
+     then if is_true (check1 toks (Z.of_nat k) (s "RBRACE"))
+          then (if v_scope_indent v0 - 1 >? Z.of_nat k then bind (emit (s "TOO_FEW_TAB") (peek toks 0) []) (fun E => Ok (E, v0))
+                else if Z.of_nat k >? v_scope_indent v0 - 1 then bind (emit (s "TOO_MANY_TAB") (peek toks 0) []) (fun E => Ok (E, v0)) else Ok ([], v0))
+          else bind (for_each (rev (py_slice_to (py_history v0) (hist_len v0 - 1)))
+                 (fun x_item (st : Z * Z * list em * view) => let '(x_expected, x_got, E, v) := st in
+                  if str_eqb x_item (s "IsEmptyLine") || str_eqb x_item (s "IsComment") || str_eqb x_item (s "IsPreprocessorStatement")
+                  then Ok (false, (x_expected, x_got, E, v))
+                  else if negb (str_in x_item [s "IsControlStatement"; s "IsFuncDeclaration"; s "IsUserDefinedType"])
+                       then Ok (true, (x_expected, x_got, E, v))
+                       else let x_expected := x_expected - 1 in Ok (true, (x_expected, x_got, E, v)))
+                 (v_scope_indent v0, Z.of_nat k, [], v0))
+                 (fun st => let '(x_expected, x_got, E, v) := st in
+                  if x_expected >? x_got then bind (emit (s "TOO_FEW_TAB") (peek toks 0) E) (fun E => Ok (E, v))
+                  else if x_got >? x_expected then bind (emit (s "TOO_MANY_TAB") (peek toks 0) E) (fun E => Ok (E, v)) else Ok (E, v))
+     else if v_scope_indent v0 >? Z.of_nat k then bind (emit (s "TOO_FEW_TAB") (peek toks 0) []) (fun E => Ok (E, v0))
+          else if Z.of_nat k >? v_scope_indent v0 then bind (emit (s "TOO_MANY_TAB") (peek toks 0) []) (fun E => Ok (E, v0)) else Ok ([], v0))
+    = Ok ([], v')).
+  { intros v0 Hh0 Hi0. rewrite Hbr, Hr, Hi0. cbn [andb]. destruct (v_scope_indent v >? 0) eqn:G.
+    - rewrite (hist_without_newest v0 h1 rest Hh0), brace_hist_walk. cbn [bind].
+      assert (Q : (if brace_parent rest then v_scope_indent v - 1 else v_scope_indent v) = Z.of_nat k) by (destruct (brace_parent rest); lia).
+      rewrite Q. replace (Z.of_nat k >? Z.of_nat k) with false by (symmetry; rewrite Z.gtb_ltb; apply Z.ltb_irrefl). eexists; reflexivity.
+    - rewrite Z.gtb_ltb in G. apply Z.ltb_ge in G.
+      assert (Q : v_scope_indent v = Z.of_nat k) by (destruct (brace_parent rest); lia).
+      rewrite Q. replace (Z.of_nat k >? Z.of_nat k) with false by (symmetry; rewrite Z.gtb_ltb; apply Z.ltb_irrefl). eexists; reflexivity. }
+  destruct (negb (str_eqb h1 (s "IsPreprocessorStatement")) && v_scope_global v && v_include_allowed v);
+    rewrite (skip_tabs_leading _ _ Hl).
+  - apply (Fin (set_include_allowed v false)); [exact Hh|reflexivity].
+  - apply (Fin v); [exact Hh|reflexivity].
+Qed.
+
 (* ------------------------------------------------------------------ CheckUtypeDeclaration (the translated part: TYPE_NOT_GLOBAL, FORBIDDEN_<type>) *)
 (* in a header, at global scope or inside a user defined type (G declares types only there) *)
 Theorem utype_silent_in_header toks scope ftype v : str_eqb ftype (s ".c") = false ->
@@ -129,12 +203,20 @@ Theorem utype_silent_in_header toks scope ftype v : str_eqb ftype (s ".c") = fal
   check_utype_forbidden toks scope ftype v = Ok ([], v).
 Proof. intros Hf Hs. unfold check_utype_forbidden. cbv zeta. rewrite Hf, Hs. reflexivity. Qed.
 
-(* ------------------------------------------------------------------ CheckExpressionStatement: silent on a statement without `return` *)
-(* position j of the statement: not the end, not `return`, a keyword is followed by a blank / line end / `)` / comment, and a
-   `*` or `&` does not directly follow an identifier (G puts a space before a binary star and nothing but an opening bracket or operator before a unary one) *)
+(* ------------------------------------------------------------------ CheckExpressionStatement: silent (the whole check) *)
+(* position j of the statement: not the end; a keyword is followed by a blank / line end / `)` / comment; a `*` or `&` does not
+   directly follow an identifier (G puts a space before a binary star and nothing but an opening bracket or operator before a
+   unary one); after `return` (and blanks) comes `;`, or `(` whose matching `)` - found by Context.skip_nest - is followed by `;` *)
+Definition return_ok (toks : list token) (j : Z) : bool :=
+  let T := skip_ws toks (j + 1) in
+  negb (is_false (check1 toks T (s "SEMI_COLON")) && is_false (check1 toks T (s "LPARENTHESIS")))
+  && (if is_false (check1 toks T (s "SEMI_COLON"))
+      then match skip_nest toks T with Ok x => negb (is_false (check1 toks (x + 1) (s "SEMI_COLON"))) | _ => false end
+      else true).
+
 Definition expr_pos_ok (toks : list token) (j : Z) : bool :=
   is_false (checkl toks j [s "SEMI_COLON"; s "NEWLINE"])
-  && negb (is_true (check1 toks j (s "RETURN")))
+  && (negb (is_true (check1 toks j (s "RETURN"))) || return_ok toks j)
   && negb (is_true (checkl toks j expression_kw) && is_false (checkl toks (j + 1) after_kw_ok))
   && negb (is_true (checkl toks j [s "MULT"; s "BWISE_AND"]) && (j >? 0) && is_true (check1 toks (j - 1) (s "IDENTIFIER"))).
 
@@ -147,20 +229,35 @@ Proof.
   - replace (i + Z.of_nat 0) with i in * by lia. rewrite Hend. reflexivity.
   - assert (H := Hok i ltac:(lia)). unfold expr_pos_ok in H.
     apply andb_true_iff in H as [H HC]. apply andb_true_iff in H as [H HB]. apply andb_true_iff in H as [HA HD].
-    apply negb_true_iff in HD, HB, HC. fold after_kw_ok. rewrite HA.
+    apply negb_true_iff in HB, HC. fold after_kw_ok. rewrite HA.
     assert (R : check_expression_statement_loop1 f toks scope (i + 1) E v = Ok (None, (i + Z.of_nat (S k), E, v))).
     { replace (i + Z.of_nat (S k)) with (i + 1 + Z.of_nat k) by lia. apply IH; [lia| |].
       - intros j Hj. apply Hok. lia.
       - replace (i + 1 + Z.of_nat k) with (i + Z.of_nat (S k)) by lia. exact Hend. }
-    rewrite HD.
+    assert (RR : (if is_true (check1 toks i (s "RETURN"))
+                  then if is_false (check1 toks (skip_ws toks (i + 1)) (s "SEMI_COLON")) && is_false (check1 toks (skip_ws toks (i + 1)) (s "LPARENTHESIS"))
+                       then bind (emit (s "RETURN_PARENTHESIS") (peek toks (skip_ws toks (i + 1))) E) (fun E0 => Ok (Some tt, (i, E0, v)))
+                       else if is_false (check1 toks (skip_ws toks (i + 1)) (s "SEMI_COLON"))
+                            then bind (skip_nest toks (skip_ws toks (i + 1))) (fun x_tmp =>
+                                   if is_false (check1 toks (x_tmp + 1) (s "SEMI_COLON"))
+                                   then bind (emit (s "RETURN_PARENTHESIS") (peek toks (x_tmp + 1)) E) (fun E0 => Ok (Some tt, (i, E0, v)))
+                                   else check_expression_statement_loop1 f toks scope (i + 1) E v)
+                            else check_expression_statement_loop1 f toks scope (i + 1) E v
+                  else check_expression_statement_loop1 f toks scope (i + 1) E v)
+                 = Ok (None, (i + Z.of_nat (S k), E, v))).
+    { destruct (is_true (check1 toks i (s "RETURN"))); [|exact R]. cbn [negb orb] in HD. unfold return_ok in HD. cbv zeta in HD.
+      apply andb_true_iff in HD as [H1 H2]. apply negb_true_iff in H1. rewrite H1.
+      destruct (is_false (check1 toks (skip_ws toks (i + 1)) (s "SEMI_COLON"))); [|exact R].
+      destruct (skip_nest toks (skip_ws toks (i + 1))) as [x| | |]; try discriminate. cbn [bind].
+      apply negb_true_iff in H2. rewrite H2. exact R. }
     destruct (is_true (checkl toks i expression_kw)) eqn:K.
     + cbn [andb] in HB. rewrite HB.
       destruct (is_true (checkl toks i [s "MULT"; s "BWISE_AND"]) && (i >? 0)) eqn:M.
-      * cbn [andb] in HC. rewrite HC. exact R.
-      * exact R.
+      * cbn [andb] in HC. rewrite HC. exact RR.
+      * exact RR.
     + destruct (is_true (checkl toks i [s "MULT"; s "BWISE_AND"]) && (i >? 0)) eqn:M.
-      * cbn [andb] in HC. rewrite HC. exact R.
-      * exact R.
+      * cbn [andb] in HC. rewrite HC. exact RR.
+      * exact RR.
 Qed.
 
 (* the first n tokens are fine and token n is the `;` or the line end (or the tokens end there): nothing is reported *)
